@@ -792,6 +792,23 @@ func (e *veEnv) newBroker(sc veScenario) (*Broker, *veStore) {
 	return b, ws
 }
 
+// veRunBounded: a scenario that is still running after four minutes (they take seconds; a hang of the
+// HARNESS was seen once in 7,000 scenarios) is given up: its line says "not finished", which flags it, and
+// the flagged scenario is then played again on its own by the confirmation step of bin/check. The
+// goroutines of the abandoned run are left behind (their stacks are in build/hang-<id>.txt).
+func veRunBounded(tmp string, sc veScenario) string {
+	ch := make(chan string, 1)
+	go func() { ch <- veRun(tmp, sc) }()
+	select {
+	case l := <-ch:
+		return l
+	case <-time.After(time.Duration(gen.EnvInt("VERIF_E2E_ABANDON_MS", 240000)) * time.Millisecond):
+		return fmt.Sprintf("E %s %s files=%d links=0 del=%v threads=%d payload=%d chunk=%d faults=%d pollfaults=%d stop=%s stopat=%d crashat=%d reuse=%v reusefault=- reusecrash=%v deldelay=0 mutate=- = abandoned_after_4_minutes=1 delivered_ok=0 eligible=%d files=%d finished=false restarted=false stop_ms=-1 tx_calls=2\n",
+			sc.id, sc.profile, len(sc.files), sc.del, sc.threads, sc.payload, sc.chunk, len(sc.faults), len(sc.pollFault),
+			map[bool]string{true: "-", false: sc.stopKind}[sc.stopKind == ""], sc.stopAt, sc.crashAt, sc.reuse, sc.reuseCrash, len(sc.files), len(sc.files))
+	}
+}
+
 func veRun(tmp string, sc veScenario) string {
 	// a marker that survives a crash of the whole test process: which scenario was running
 	marker := filepath.Join(tmp, "running-"+sc.id)
@@ -1700,7 +1717,7 @@ func TestVerifE2E(t *testing.T) {
 		go func(i int) {
 			defer wg.Done()
 			defer func() { <-sem }()
-			out[i] = veRun(tmp, scs[i])
+			out[i] = veRunBounded(tmp, scs[i])
 		}(i)
 	}
 	wg.Wait()
